@@ -76,6 +76,7 @@ func NewClient(ch channel.Channel, opts *ClientOptions) *Client {
 func (c *Client) accept(ch receiver) error {
 	var in jmessages
 	bits, err := ch.Recv()
+	verifPoint("cli.accept.recv", bits)
 	if err == nil {
 		err = in.parseJSON(bits)
 	}
@@ -93,6 +94,7 @@ func (c *Client) accept(ch receiver) error {
 	c.done.Add(1)
 	go func() {
 		defer c.done.Done()
+		verifPoint("cli.deliver.lock", bits)
 		c.mu.Lock()
 		defer c.mu.Unlock()
 		for _, rsp := range in {
@@ -124,6 +126,7 @@ func (c *Client) handleRequestLocked(msg *jmessage) {
 		go func() {
 			defer c.done.Done()
 			bits := c.scall(ctx, msg)
+			verifPoint("cli.cb.lock", bits)
 
 			c.mu.Lock()
 			defer c.mu.Unlock()
@@ -224,6 +227,7 @@ func (c *Client) send(ctx context.Context, reqs jmessages) ([]*Response, error) 
 		}
 	}
 
+	verifPoint("cli.send.lock", b)
 	c.mu.Lock()
 	defer c.mu.Unlock()
 	if c.err != nil {
@@ -250,6 +254,7 @@ func (c *Client) send(ctx context.Context, reqs jmessages) ([]*Response, error) 
 // cancellation is a no-op ("too late").
 func (c *Client) waitComplete(pctx context.Context, id string, p *Response) {
 	<-pctx.Done()
+	verifPointS("cli.wait.lock", id)
 	cleanup := func() {}
 	c.mu.Lock()
 	defer func() {
@@ -280,6 +285,7 @@ func (c *Client) waitComplete(pctx context.Context, id string, p *Response) {
 	// If there is a cancellation hook, give it a chance to run.
 	if c.chook != nil {
 		cleanup = func() {
+			verifPointS("cli.wait.hook", id)
 			p.wait() // ensure the response has settled
 			c.log("Calling OnCancel for id %q", id)
 			c.chook(c, p)
@@ -378,6 +384,7 @@ func (c *Client) Notify(ctx context.Context, method string, params any) error {
 
 // Close shuts down the client, terminating any pending in-flight requests.
 func (c *Client) Close() error {
+	verifPointS("cli.close.lock", "")
 	c.mu.Lock()
 	defer c.stopLocked(errClientStopped)()
 	c.mu.Unlock()
